@@ -116,6 +116,37 @@ def run(tier, rep):
                 o = message_rec.do_op(msg, "serialize", fields)
                 o["op"] = "frameback"
                 r["ops"] = [o, message_rec.do_op(msg, "payload", fields)]
+    # CRC-consistent but NON-canonical buffers (the static parser checks the CRC only): reserved bits
+    # set, a length field that does not tally, another first byte - the message is the one of the
+    # enclosed payload and serialising it gives the CANONICAL frame
+    from ..decode_rec import crc24q
+    from pyrtcm import RTCMReader
+
+    for ident, pn, pl in cases[:: (9 if quick else 2)]:
+        if len(pl) < 2:
+            continue
+        n = len(pl)
+        for hdr in (bytes([0xD3, (n >> 8) | (rnd.randrange(1, 64) << 2), n & 0xFF]),
+                    bytes([0xD3, ((n + 5) % 1024) >> 8, (n + 5) % 1024 & 0xFF]),
+                    bytes([rnd.choice([0x00, 0xD2, 0xFF]), n >> 8, n & 0xFF])):
+            body = hdr + pl
+            fr = body + crc24q(body).to_bytes(3, "big")
+            rid, r, msg = corp.add(None, 1, keep_msg=True, via="parse", frame=fr, validate=1, ident="noncanon:" + ident, profile="noncanonical")
+            if msg is not None:
+                r["ops"] = [message_rec.do_op(msg, "serialize", fields), message_rec.do_op(msg, "payload", fields)]
+    # the caller's receive buffer is reused after parse(): the message must not alias it
+    for ident, pn, pl in cases[:: (11 if quick else 3)]:
+        if len(pl) < 2:
+            continue
+        buf = bytearray(frame_of(pl))
+        try:
+            msg = RTCMReader.parse(buf, validate=1)
+        except Exception:  # pylint: disable=broad-except
+            continue
+        for i in range(len(buf)):
+            buf[i] = (buf[i] + 1 + i) & 0xFF
+        rid, r = corp.add_message(pl, msg, 1, lbl=False, ident="bufreuse:" + ident, profile="buffer-reuse")
+        r["ops"] = [message_rec.do_op(msg, "serialize", fields), message_rec.do_op(msg, "payload", fields)]
     verdicts = corp.judge()
     for r in corp.recs:
         v = verdicts[r["rid"]]
